@@ -15,6 +15,8 @@ Emits Gen/CApi.lean:
                         function that is classified so (fixpoint).  A `ctx.editor.<method>` that is in neither
                         reviewed list raises ExtractError (a new way into the editor must be reviewed);
   * iterFields / iterSites — the stored iterators of the context and every function that touches each;
+  * heapGetters       — functions that register a heap result in OWNED, with the kind; every `into_raw` inside an
+                        exported function must be wrapped in `owned_into_raw` (else ExtractError);
   * ownedKinds        — variants of `enum Owned`; freeShape — recognised shape of chewing_free's rebuild arms;
   * unsafeBlocksTotal, helperUnsafeFns — all `unsafe {` blocks of io.rs and the non-exported `unsafe fn`s;
   * kbNames           — `impl Display for KeyboardLayoutCompat` texts as UTF-8 bytes; maxPinyinLen.
@@ -146,6 +148,7 @@ def capi():
     rows, calls, direct = [], {}, {}
     iter_sites = {f: [] for f in ITER_FIELDS}
     getters = []
+    heap_getters = []
     for name, params, fbody in fns:
         first = params.split(',')[0]
         if re.search(r"\*\s*mut\s+ChewingContext", first):
@@ -179,6 +182,16 @@ def capi():
         for b in re.findall(r"copy_cstr\s*\(\s*&mut\s+ctx\s*\.\s*([a-z_]+)\s*,", fbody):
             getters.append((name, b))
         rows.append([name, kind, unsafe_blocks])
+        wb = ws(fbody)
+        if "owned_into_raw(Owned::CString" in wb:
+            heap_getters.append((name, 0))
+        if "owned_into_raw(Owned::CUShortSlice" in wb:
+            heap_getters.append((name, 1))
+        # every raw pointer made from an owned value inside an exported function is registered
+        n_raw = len(re.findall(r"\.into_raw\(\)", wb)) + len(re.findall(r"Box::into_raw\(", wb))
+        n_reg = wb.count("owned_into_raw(")
+        if name not in ("chewing_new2",) and n_raw != n_reg:
+            raise ExtractError(f"{name}: {n_raw} into_raw conversions but {n_reg} owned_into_raw registrations")
     if len(re.findall(r"\bcopy_cstr\s*\(", io)) != len(getters) + 1 + io.count("pub fn verif_copy_cstr"):
         raise ExtractError("copy_cstr is called in an unrecognised way (reviewed: copy_cstr(&mut ctx.<buf>, …))")
     mut = dict(direct)
@@ -226,6 +239,8 @@ def capi():
          lean_list([f"({lean_str(n)}, {k}, {u})" for n, k, u in rows], 2) + "\n\n"
     t += "/-- exported functions that may mutate the user dictionary (reach learn/unlearn/reopen/flush) -/\n"
     t += "def dictMutFns : List String := " + lean_list([lean_str(n) for n in names if mut[n]], 3) + "\n\n"
+    t += "/-- functions that hand out a heap result registered in `OWNED` (0 = CString, 1 = u16 slice) -/\n"
+    t += "def heapGetters : List (String × Nat) := " + lean_list([f"({lean_str(n)}, {k})" for n, k in heap_getters], 3) + "\n\n"
     t += "def iterFields : List String := " + lean_list([lean_str(f) for f in ITER_FIELDS]) + "\n\n"
     t += "/-- functions that touch each stored iterator -/\n"
     t += "def iterSites : List (String × List String) := " + \
